@@ -58,7 +58,9 @@ func (b *bench) op(kind int, mapS, dskS CRLStore, ref *refStore) {
 		ref.meta = m
 	case 1, 2, 3:
 		k := kind - 1
-		rc := &pkix.RevokedCertificate{SerialNumber: b.serials[k]}
+		// an entry carries a revocation date and entry extensions (reason code ...): arbitrary content
+		rc := &pkix.RevokedCertificate{SerialNumber: b.serials[k], RevocationTime: verifrt.TimeAt(verifrt.NondetInt64("revocationDate")),
+			Extensions: []pkix.Extension{{Id: []int{2, 5, 29, 21}, Critical: verifrt.NondetBool("critical"), Value: verifrt.NondetBytes("extValue", 3)}}}
 		iss := issuers[k%2]
 		e := &crlreader.CRLEntry{Issuer: rdn(iss), RevokedCertificate: rc}
 		verifrt.Assert(mapS.InsertRevokedCert(e) == nil && dskS.InsertRevokedCert(e) == nil, "insert ok")
@@ -128,6 +130,16 @@ func (b *bench) observe(mapS, dskS CRLStore, ref *refStore, tag string) {
 		verifrt.Reach("listed-" + tag)
 		verifrt.Assert(mst.CRLRevokedCertEntry != nil && mst.CRLRevokedCertEntry.SerialNumber == last.SerialNumber, "memory returns the stored entry")
 		verifrt.Assert(dst.CRLRevokedCertEntry != nil && dst.CRLRevokedCertEntry.SerialNumber == last.SerialNumber, "disk returns the stored entry")
+		for _, got := range []*pkix.RevokedCertificate{mst.CRLRevokedCertEntry, dst.CRLRevokedCertEntry} {
+			if got == nil {
+				continue
+			}
+			verifrt.Assert(verifrt.TimeNs(got.RevocationTime) == verifrt.TimeNs(last.RevocationTime), "the stored entry comes back with its revocation date")
+			verifrt.Assert(len(got.Extensions) == len(last.Extensions), "the stored entry comes back with its entry extensions")
+			if len(got.Extensions) == 1 && len(last.Extensions) == 1 {
+				verifrt.Assert(got.Extensions[0].Critical == last.Extensions[0].Critical && verifrt.BytesEqual(got.Extensions[0].Value, last.Extensions[0].Value) && got.Extensions[0].Id.Equal(last.Extensions[0].Id), "entry extension unchanged")
+			}
+		}
 	}
 }
 
